@@ -656,7 +656,7 @@ where
             constants::DW_OP_piece => {
                 let size = bytes.read_uleb128()?;
                 Ok(Operation::Piece {
-                    size_in_bits: 8 * size,
+                    size_in_bits: size.checked_mul(8).ok_or(Error::InvalidPiece)?,
                     bit_offset: None,
                 })
             }
